@@ -99,6 +99,11 @@ def gen(rng, i, tier):
         a = [rng.randrange(-2000, 2000), rng.randrange(1, 1000)]
         bk = rng.choice(["beat", "int", "frac"])
         b = [rng.randrange(-2000, 2000) or 1, 1 if bk == "int" else rng.randrange(1, 1000)]
+        if rng.random() < 0.12:                          # a zero beat on either side (a difference that cancelled, the start of the song)
+            if rng.random() < 0.6:
+                a = [0, rng.choice([1, 48, 7])]
+            else:
+                b = [0, 1] if op not in ("truediv", "mod", "divmod") else b
         if rng.random() < 0.4:                           # small operands of either sign: measures, halves, thirds
             b = [rng.choice([-8, -4, -3, -2, -1, 1, 2, 3, 4, 8]), 1 if bk == "int" else rng.choice([1, 2, 3, 4])]
             a = [rng.randrange(-400, 400), rng.choice([1, 2, 3, 4, 48])]
